@@ -183,9 +183,32 @@ def _mk_n(n, ntype):
     return int(n)
 
 
+def _canary():
+    """Fixed mini-scenario whose outcome must be the same before and after any history: admission checks of freshly
+    constructed objects.  A difference means the history left process-global state behind (e.g. a mutated class attribute)."""
+    from chempy import Equilibrium
+
+    out = []
+    for args, kw in ((({"A": 1}, {"B": 1}, 3), {}), (({"A": 0}, {"B": 0}, 1), {}), (({"A": 1}, {"A": 1}, 1), {}),
+                     (({"A": -1}, {"B": 1}, 2), {}), (({"A": 1.5}, {"B": 1}, 2), {})):
+        try:
+            Equilibrium(*args, **kw)
+            out.append("ok")
+        except Exception as ex:
+            out.append(core.exc_tag(ex))
+    try:
+        e = Equilibrium({"A": 1}, {"B": 1}, 3)
+        out.append("0*e:" + ("ok" if isinstance(0 * e, Equilibrium) else "other"))
+    except Exception as ex:
+        out.append("0*e:" + core.exc_tag(ex))
+    return out
+
+
 def execute(case):
     from chempy import Equilibrium
     from chempy.chemistry import Reaction
+
+    canary_before = _canary()
 
     cfg = case["config"]
     ck = cfg["const_kind"]
@@ -585,6 +608,10 @@ def execute(case):
     for pid, (obj, cvec, snap, kexp) in pool.items():
         check_obj(obj, cvec, "final_sweep", None, False, {"late": True}, kexp=kexp)
     bump("live_objects", len(pool))
+    canary_after = _canary()
+    if canary_after != canary_before:
+        viols.append(core.violation("process_state_leak", "admission of fresh objects changed during the history: %s -> %s" % (canary_before, canary_after),
+                                    {"op": "canary"}, None))
     return {"history": hist, "violations": _dedup(viols), "stats": stats, "states": sorted(states, key=repr)}
 
 
